@@ -96,6 +96,8 @@ def check(inp):
     exp = float(np.mean(ch))
     if not close(float(g.expected_disorder), exp, rtol=1e-4):
         return fail("expected disorder == mean chance disorder", inp, float(g.expected_disorder), exp)
+    if exp == 0 and obs != 0:
+        return None       # 1 - observed/0 is not defined (every chance sample aligned with zero disorder): outside the statement
     want = 1.0 if obs == 0 else 1 - obs / exp
     if not close(float(g.gamma), want, rtol=1e-4, atol=1e-6) or float(g.gamma) > 1 + 1e-9:
         return fail("gamma == 1 - observed/expected (1 when observed is 0), never above 1", inp, float(g.gamma), want)
